@@ -514,6 +514,11 @@ class Escapes:
                     out.append((n, TypeError, f"hash of {ast.unparse(needle)[:30]} in `{ast.unparse(n)[:40]}`"))
                 elif u is None:
                     self.undeclared.append(f"{fi.file} {fi.qualname}: hash of {ast.unparse(needle)[:30]} in `{ast.unparse(n)[:40]}`")
+        # a parameter declared object/Any used as a number (ordering, arithmetic, unary minus) before any path converted or narrowed it
+        from .rawflow import RawFlow
+
+        for f_ in RawFlow(self.prog).analyse(fi, lambda _fi, _n: False):
+            out.append((f_.node, TypeError, f"{f_.op} on unconverted `{f_.name}` in `{ast.unparse(f_.node)[:40]}`"))
         return out
 
     def _index_safe(self, fi: FunctionInfo, n: ast.Subscript, idx: int) -> bool:
